@@ -84,6 +84,9 @@ func c13BinCases(cfg Config) []*c13Case {
 		&c13Case{Origin: "bin-test", Calls: []cCall{call("test", vBool(false)), call("exit", vNum(7))}},
 		&c13Case{Origin: "bin-test", Calls: []cCall{call("test", vBool(false)), call("panic", vStr("p"))}},
 		&c13Case{Origin: "bin-test", Calls: []cCall{call("test", vNum(1), vNum(2), vNum(3))}},
+		&c13Case{Origin: "bin-test-message", Calls: []cCall{call("test", vNum(100), vNum(90), vStr("score below 100% of target"))}},
+		&c13Case{Origin: "bin-test-message", Calls: []cCall{call("test", vNum(1), vNum(2), vStr("%v %d %%")), call("test", vNum(1), vNum(2), vStr("trailing %")), call("test", vNum(1), vNum(2), vStr("val is %v%%"), vNum(2))}},
+		&c13Case{Origin: "bin-test-message", FailFast: true, Calls: []cCall{call("test", vStr("a"), vStr("b"), vStr("%")), call("test", vBool(false))}},
 		&c13Case{Origin: "bin-test", Calls: []cCall{call("test")}},
 		&c13Case{Origin: "bin-badargs", Calls: []cCall{call("printf")}},
 		&c13Case{Origin: "bin-badargs", Calls: []cCall{call("len", vNum(1))}},
@@ -191,6 +194,12 @@ func c13Binary(cfg Config, model *Model, r *Result) {
 			r.Violate(Violation{Kind: "property", Key: "bin-stdout:" + c.Origin, Detail: "stdout of `evy run` differs from the model's prints + test summary", Input: in, Impl: implDesc, Model: modelDesc})
 		case (res.Stderr == "") != wantErrEmpty:
 			r.Violate(Violation{Kind: "property", Key: "bin-stderr:" + c.Origin, Detail: "stderr of `evy run` is empty/non-empty against the model's class", Input: in, Impl: implDesc, Model: modelDesc})
+		}
+		// the text of the failed tests on stderr (positions stripped)
+		if mobs.Class == "test" && res.Status == wantStatus && stripPositions(res.Stderr) != mobs.FailText+"\n" {
+			r.Violate(Violation{Kind: "property", Key: "bin-test-messages:" + c.Origin,
+				Detail: "the failed-test messages `evy run` prints on stderr differ from the model's (want != got: repr want != repr got, then the message: verbatim with 3 arguments, formatted with 4 or more)",
+				Input:  in, Impl: implDesc, Model: map[string]any{"stderr": mobs.FailText + "\n"}})
 		}
 		// documented texts
 		for i, call := range c.Calls {
